@@ -15,6 +15,7 @@ import (
 	"strconv"
 	"strings"
 
+	"github.com/zeromicro/go-zero/core/conf"
 	"github.com/zeromicro/go-zero/core/mapping"
 	"github.com/zeromicro/go-zero/rest/httpx"
 	"github.com/zeromicro/go-zero/rest/pathvar"
@@ -156,6 +157,7 @@ type entry struct {
 	Int63     bool // integers above MaxInt64 cannot be written
 	NoMaps    bool // only scalars and lists of scalars
 	NoLists   bool
+	ByRef     bool // the input tree itself (maps, lists) is handed to go-zero, not a rendered document
 	Call      func(tree map[string]any, target any) error
 	Doc       func(tree map[string]any) string
 }
@@ -167,6 +169,7 @@ var (
 	umPath    = mapping.NewUnmarshaler("path", mapping.WithStringValues(), mapping.WithOpaqueKeys())
 	umHeader  = mapping.NewUnmarshaler("header", mapping.WithStringValues(), mapping.WithCanonicalKeyFunc(textproto.CanonicalMIMEHeaderKey))
 	umLower   = mapping.NewUnmarshaler("json", mapping.WithCanonicalKeyFunc(strings.ToLower))
+	umUpper   = mapping.NewUnmarshaler("json", mapping.WithCanonicalKeyFunc(strings.ToUpper))
 )
 
 func jsonDoc(tree map[string]any) string { return string(renderJSON(tree)) }
@@ -219,25 +222,31 @@ var entries = map[string]*entry{
 	"toml": {Name: "toml", Ctx: &ctxD{Name: "json", TagKey: "json"}, NoNull: true, Canonical: true, Int63: true,
 		Doc:  func(t map[string]any) string { return string(renderTOML(t)) },
 		Call: func(t map[string]any, v any) error { return mapping.UnmarshalTomlBytes(renderTOML(t), v) }},
-	"key": {Name: "key", Ctx: &ctxD{Name: "key", TagKey: "key"}, Doc: jsonDoc,
+	"key": {Name: "key", ByRef: true, Ctx: &ctxD{Name: "key", TagKey: "key"}, Doc: jsonDoc,
 		Call: func(t map[string]any, v any) error { return mapping.UnmarshalKey(t, v) }},
-	"keynative": {Name: "keynative", Ctx: &ctxD{Name: "keynative", TagKey: "key", Native: true}, NoMaps: true, NoLists: true,
+	"keynative": {Name: "keynative", ByRef: true, Ctx: &ctxD{Name: "keynative", TagKey: "key", Native: true}, NoMaps: true, NoLists: true,
 		Doc:  func(t map[string]any) string { return fmt.Sprintf("%#v", t) },
 		Call: func(t map[string]any, v any) error { return mapping.UnmarshalKey(t, v) }},
-	"jsonmap": {Name: "jsonmap", Ctx: &ctxD{Name: "json", TagKey: "json"}, Doc: jsonDoc,
+	"jsonmap": {Name: "jsonmap", ByRef: true, Ctx: &ctxD{Name: "json", TagKey: "json"}, Doc: jsonDoc,
 		Call: func(t map[string]any, v any) error { return mapping.UnmarshalJsonMap(t, v) }},
-	"custom": {Name: "custom", Ctx: &ctxD{Name: "cfg", TagKey: "cfg"}, Doc: jsonDoc,
+	"custom": {Name: "custom", ByRef: true, Ctx: &ctxD{Name: "cfg", TagKey: "cfg"}, Doc: jsonDoc,
 		Call: func(t map[string]any, v any) error { return umCustom.Unmarshal(t, v) }},
-	"strvals": {Name: "strvals", Ctx: &ctxD{Name: "strvals", TagKey: "json", AllFromString: true}, NoNull: true, NoMaps: true, Doc: jsonDoc,
+	"strvals": {Name: "strvals", ByRef: true, Ctx: &ctxD{Name: "strvals", TagKey: "json", AllFromString: true}, NoNull: true, NoMaps: true, Doc: jsonDoc,
 		Call: func(t map[string]any, v any) error { return umStrVals.Unmarshal(t, v) }},
-	"formlike": {Name: "formlike", Ctx: &ctxD{Name: "form", TagKey: "form", AllFromString: true, FromArray: true}, NoNull: true, NoMaps: true, Doc: jsonDoc,
+	"formlike": {Name: "formlike", ByRef: true, Ctx: &ctxD{Name: "form", TagKey: "form", AllFromString: true, FromArray: true}, NoNull: true, NoMaps: true, Doc: jsonDoc,
 		Call: func(t map[string]any, v any) error { return umForm.Unmarshal(stringLists(t, true), v) }},
-	"pathlike": {Name: "pathlike", Ctx: &ctxD{Name: "path", TagKey: "path", AllFromString: true}, NoNull: true, NoMaps: true, NoLists: true, Doc: jsonDoc,
+	"pathlike": {Name: "pathlike", ByRef: true, Ctx: &ctxD{Name: "path", TagKey: "path", AllFromString: true}, NoNull: true, NoMaps: true, NoLists: true, Doc: jsonDoc,
 		Call: func(t map[string]any, v any) error { return umPath.Unmarshal(t, v) }},
-	"headerlike": {Name: "headerlike", Ctx: &ctxD{Name: "header", TagKey: "header", AllFromString: true, Canon: textproto.CanonicalMIMEHeaderKey}, NoNull: true, NoMaps: true, Doc: jsonDoc,
+	"headerlike": {Name: "headerlike", ByRef: true, Ctx: &ctxD{Name: "header", TagKey: "header", AllFromString: true, Canon: textproto.CanonicalMIMEHeaderKey}, NoNull: true, NoMaps: true, Doc: jsonDoc,
 		Call: func(t map[string]any, v any) error { return umHeader.Unmarshal(stringLists(t, false), v) }},
-	"lower": {Name: "lower", Ctx: &ctxD{Name: "lower", TagKey: "json", Canon: strings.ToLower}, Doc: jsonDoc,
+	"lower": {Name: "lower", ByRef: true, Ctx: &ctxD{Name: "lower", TagKey: "json", Canon: strings.ToLower}, Doc: jsonDoc,
 		Call: func(t map[string]any, v any) error { return umLower.Unmarshal(t, v) }},
+	// a second canonicalising configuration over the same tag key as "lower" (shares struct types with it)
+	"upper": {Name: "upper", ByRef: true, Ctx: &ctxD{Name: "upper", TagKey: "json", Canon: strings.ToUpper}, Doc: jsonDoc,
+		Call: func(t map[string]any, v any) error { return umUpper.Unmarshal(t, v) }},
+	// core/conf: lower-cases the document's keys and unmarshals with a lower-casing canonical key function
+	"conf": {Name: "conf", Ctx: &ctxD{Name: "conf", TagKey: "json", Canon: strings.ToLower}, Doc: jsonDoc,
+		Call: func(t map[string]any, v any) error { return conf.LoadFromJsonBytes(renderJSON(t), v) }},
 }
 
 // ---- httpx.Parse
